@@ -1,10 +1,14 @@
 """Per-property pass configuration: which generator families run, with what share of the budget."""
+RACE_ENV = {"VERIF_RACEMODE": "1"}
 CFG = {
     "C18": {
         "passes": [
-            {"prop": "C18", "share": 0.45, "name": "dense"},
-            {"prop": "C18", "share": 0.55, "name": "dense-race", "race": True},
+            {"prop": "C18", "share": 0.4, "name": "dense"},
+            {"prop": "C18", "share": 0.3, "name": "free-race-server", "race": True, "env": RACE_ENV, "workers": 8},
+            {"prop": "C14", "share": 0.3, "name": "free-race-e2e", "race": True, "env": RACE_ENV, "workers": 8},
         ],
-        "evidence": {"race_detector": "second pass runs the same plan family on a -race build; a report whose stacks include pion/turn frames kills the worker and is replayed"},
+        "evidence": {"race_detector": "passes 2 and 3 run UDP-listener server-world plans (scripted clients; real client + real server) on a -race build in "
+                     "free-running mode: no scheduler steps, no harness locks or counters on library paths, timers as the only network, GOMAXPROCS 4; "
+                     "a report with pion/turn frames kills the worker and is replayed"},
     },
 }
